@@ -27,6 +27,11 @@ def measure(m):
             H = float(m.calculate_enthalpy())
         except np.linalg.LinAlgError as e:
             return {"solver": f"LinAlgError: {e}"}
+        except Exception as e:  # noqa: BLE001
+            # an exception raised after the solver announced non-convergence is an announced failure (C06), anything else is not
+            if any("Minimiser could not find" in str(x.message) for x in w):
+                return {"solver": f"non-convergence warning, then {type(e).__name__}"}
+            raise
         if any("Minimiser could not find" in str(x.message) for x in w):
             return {"solver": "non-convergence warning"}
     M = np.array([sp.molar_mass for sp in m.species])
